@@ -60,9 +60,19 @@ def run_tasks(tasks, procs):
         return []
     if procs <= 1 or len(tasks) == 1:
         return [_work(t) for t in tasks]
+    # a worker that dies (killed by a signal, out of memory) must not hang the check: futures of a broken pool raise, and are recorded as crashes
+    from concurrent.futures import ProcessPoolExecutor
     ctxm = mp.get_context("fork")
-    with ctxm.Pool(min(procs, len(tasks))) as pool:
-        return pool.map(_work, tasks, chunksize=1)
+    out = [None] * len(tasks)
+    with ProcessPoolExecutor(max_workers=min(procs, len(tasks)), mp_context=ctxm) as ex:
+        futs = [ex.submit(_work, t) for t in tasks]
+        for i, (t, fu) in enumerate(zip(tasks, futs)):
+            try:
+                out[i] = fu.result(timeout=int(os.environ.get("VERIF_TASK_TIMEOUT_S", "7200")))
+            except BaseException as e:      # noqa  (BrokenProcessPool, TimeoutError, ...)
+                out[i] = dict(_kind=t[0], status="crash", unit="%s[%s]" % (t[1], t[2]), name="%s[%s]" % (t[1], t[2]),
+                              reason="worker failed: %s: %s" % (type(e).__name__, e), traceback="")
+    return out
 
 
 # ---- known findings ------------------------------------------------------------------------
